@@ -600,6 +600,9 @@ where
             Some(data) => match data {
                 SimpleData::CharList(s) => {
                     let v = symbol_value(s);
+                    // a symbol made from text keeps its name, like one written in a program
+                    let name = s.clone();
+                    self.data.insert_symbol(v, name);
                     self.cache_add(SimpleData::Symbol(v))
                 }
                 t => Err(DataError::from(format!("Found {:?} instead of CharList after creating a CharList.", t))),
